@@ -838,6 +838,13 @@ func ruleFileReaders(c *core.Ctx, rule string) {
 		if k, ok := val.(absint.Const); ok && k.Nil {
 			bad = append(bad, "a nil reader is stored for a requested file")
 		}
+		if !types.IsInterface(in.Val.Type()) {
+			// an intermediate list of the opened files themselves ([]*os.File): the conversion to readers is checked where it happens
+			if in.Val.Type().String() != "*os.File" {
+				s.SetData("stored", "")
+			}
+			return
+		}
 		if iv, ok := val.(*absint.Iface); !ok || iv.T == nil || iv.T.String() != "*os.File" {
 			bad = append(bad, "the reader handed to the command is "+val.Key()+", not an opened *os.File: what the parser sees (bytes, line ends, line numbers) is no longer the file itself")
 		}
